@@ -5,9 +5,11 @@ import (
 	"errors"
 	"fmt"
 	gofs "io/fs"
+	"os"
 	"sort"
 	"strings"
 	"sync"
+	"time"
 
 	"github.com/hack-pad/hackpadfs"
 	"github.com/hack-pad/hackpadfs/mount"
@@ -283,6 +285,7 @@ func runC06(r *Rng, n int, replay string) {
 	defer runC06XFault(200000)
 	defer runC06Modes(300000)
 	defer runC06Bare(500000)
+	defer runC06Helpers(600000)
 	cands := candidatePaths(nsNames, 4)
 	for id := 0; id < n; id++ {
 		w := buildMountWorld(r)
@@ -801,6 +804,144 @@ func runC06Bare(idBase int) {
 			if hd > 0 && hm > 0 && class(derr) != class(merr) {
 				// (compared only when the failure was actually injected in both runs)
 				c.fail(c.Text[0], "bare-error:"+op.name+":"+prim+":"+class(derr)+"-vs-"+class(merr))
+			}
+			emit(c)
+		}
+	}
+}
+
+// runC06Helpers: "its result is what the same operation yields when applied there directly" for the package helpers the
+// generic alphabet does not contain (Lstat, LstatOrStat, Chown, Chtimes, Symlink, Create, ReadFile, ReadDir ...), on a
+// mounted in-memory FS (which has no Lstat, Symlink or Chown of its own) and on a mounted os FS holding a symbolic link.
+func runC06Helpers(idBase int) {
+	id := idBase
+	info := func(i hackpadfs.FileInfo, err error) string {
+		if err != nil {
+			return "err " + classOf(err)
+		}
+		if i.Mode()&hackpadfs.ModeSymlink != 0 {
+			// (a link's size is the length of its target's OS path, which contains the temporary directory's name)
+			return fmt.Sprintf("%s %v dir=%v", i.Name(), i.Mode(), i.IsDir())
+		}
+		return fmt.Sprintf("%s %v size=%d dir=%v", i.Name(), i.Mode(), i.Size(), i.IsDir())
+	}
+	errOnly := func(err error) string {
+		if err != nil {
+			return "err " + classOf(err)
+		}
+		return "ok"
+	}
+	type hop struct {
+		name string
+		run  func(fs hackpadfs.FS, pre string) string
+	}
+	var ops []hop
+	for _, p := range []string{"x", "z", "l", "missing", "z/k"} {
+		p := p
+		ops = append(ops,
+			hop{"Lstat(" + p + ")", func(fs hackpadfs.FS, pre string) string { return info(hackpadfs.Lstat(fs, pre+p)) }},
+			hop{"Stat(" + p + ")", func(fs hackpadfs.FS, pre string) string { return info(hackpadfs.Stat(fs, pre+p)) }},
+			hop{"LstatOrStat(" + p + ")", func(fs hackpadfs.FS, pre string) string { return info(hackpadfs.LstatOrStat(fs, pre+p)) }},
+			hop{"Chown(" + p + ")", func(fs hackpadfs.FS, pre string) string {
+				return errOnly(hackpadfs.Chown(fs, pre+p, os.Getuid(), os.Getgid()))
+			}},
+			hop{"Chtimes(" + p + ")", func(fs hackpadfs.FS, pre string) string {
+				e := hackpadfs.Chtimes(fs, pre+p, time.Unix(1000, 0), time.Unix(2000, 0))
+				i, _ := hackpadfs.Stat(fs, pre+p)
+				if e != nil || i == nil {
+					return errOnly(e)
+				}
+				return fmt.Sprintf("ok mtime=%d", i.ModTime().Unix())
+			}},
+			hop{"ReadFile(" + p + ")", func(fs hackpadfs.FS, pre string) string {
+				b, e := hackpadfs.ReadFile(fs, pre+p)
+				if e != nil {
+					return errOnly(e)
+				}
+				return fmt.Sprintf("ok %v", b)
+			}},
+			hop{"ReadDir(" + p + ")", func(fs hackpadfs.FS, pre string) string {
+				es, e := hackpadfs.ReadDir(fs, pre+p)
+				if e != nil {
+					return errOnly(e)
+				}
+				var names []string
+				for _, en := range es {
+					names = append(names, en.Name()+":"+en.Type().String())
+				}
+				return fmt.Sprintf("ok %v", names)
+			}},
+		)
+	}
+	ops = append(ops,
+		hop{"Symlink(x, n)", func(fs hackpadfs.FS, pre string) string {
+			e := hackpadfs.Symlink(fs, "x", pre+"n")
+			return errOnly(e) + " then Lstat(n): " + info(hackpadfs.Lstat(fs, pre+"n"))
+		}},
+		hop{"Create(n)", func(fs hackpadfs.FS, pre string) string {
+			f, e := hackpadfs.Create(fs, pre+"n")
+			if e == nil {
+				_ = f.Close()
+			}
+			return errOnly(e) + " then Stat(n): " + info(hackpadfs.Stat(fs, pre+"n"))
+		}},
+		hop{"Create(x)", func(fs hackpadfs.FS, pre string) string {
+			f, e := hackpadfs.Create(fs, pre+"x")
+			if e == nil {
+				_ = f.Close()
+			}
+			return errOnly(e) + " then Stat(x): " + info(hackpadfs.Stat(fs, pre+"x"))
+		}},
+	)
+	for _, kind := range []string{"mem", "os"} {
+		build := func() (hackpadfs.FS, func()) {
+			var fs hackpadfs.FS
+			done := func() {}
+			if kind == "mem" {
+				fs = newMem()
+			} else {
+				fs, done = newOSWorld()
+			}
+			_ = hackpadfs.WriteFullFile(fs, "x", []byte("hello"), 0o640)
+			_ = hackpadfs.Mkdir(fs, "z", 0o755)
+			_ = hackpadfs.WriteFullFile(fs, "z/k", []byte("k"), 0o600)
+			_ = hackpadfs.Symlink(fs, "x", "l") // (os only; the in-memory FS has no links)
+			return fs, done
+		}
+		for _, op := range ops {
+			c := &Case{ID: id, Kind: "helper-parity", Trivial: true}
+			id++
+			c.Cells = []string{"helper-parity/" + kind}
+			direct, done1 := build()
+			var dres, mres string
+			func() {
+				defer func() {
+					if e := recover(); e != nil {
+						dres = fmt.Sprintf("panic: %v", e)
+					}
+				}()
+				dres = op.run(direct, "")
+			}()
+			done1()
+			mounted, done2 := build()
+			root := newMem()
+			_ = hackpadfs.Mkdir(root, "a", 0o755)
+			m, _ := mount.NewFS(root)
+			if err := m.AddMount("a", mounted); err != nil {
+				panic(err)
+			}
+			func() {
+				defer func() {
+					if e := recover(); e != nil {
+						mres = fmt.Sprintf("panic: %v", e)
+					}
+				}()
+				mres = op.run(m, "a/")
+			}()
+			done2()
+			c.Text = []string{fmt.Sprintf("[%s FS mounted at a] %s directly -> %s; through the mount -> %s", kind, op.name, dres, mres)}
+			if dres != mres {
+				c.fail(c.Text[0], "helper-parity:"+kind+":"+strings.SplitN(op.name, "(", 2)[0])
 			}
 			emit(c)
 		}
